@@ -116,6 +116,9 @@ def main():
     answers = ck.model(lines)
     for (o, nplans), a in zip(plan_owner, ck.model(plan_reqs, parallel=False) if plan_reqs else []):
         if a != "1":
+            ck.count("files_without_exactly_one_plan")
+            if ck.counters["files_without_exactly_one_plan"] > 4:
+                continue            # keep room in the report for what the surplus plans say
             ck.violation(f"the output model carries {nplans} OfflineMemoryAllocation entries (exactly one arena plan expected) "
                          f"(network {o['idx']} {o['profile']}, options per generation {o.get('gen_opts', [o['opts']])})",
                          {"profile": o["profile"], "seed": o["seed"], "index": o["idx"], "opts": o["opts"], "gen_opts": o.get("gen_opts"),
